@@ -193,6 +193,8 @@ def make_network(rng, sym, static, dtype, keep, pending):
             idxs[t].append(gen.rand_index(rng, sym, max_charges=2, max_size=2))
     tens = []
     labels = rng.sample(range(1, 60), nt)
+    if rng.random() < 0.25:
+        labels[rng.randrange(nt)] = 0  # the natural first-site label is falsy
     for t in range(nt):
         order = list(range(len(legs[t])))
         rng.shuffle(order)
@@ -277,6 +279,8 @@ def make_doubled_network(rng, sym, static, dtype, keep, pending):
     Every label occurs twice (x and its conjugate), so merged label lists contain nested conjugate pairs."""
     k = rng.choice([2, 2, 3])
     labels = rng.sample(range(1, 60), k)
+    if rng.random() < 0.3:
+        labels[rng.randrange(k)] = 0  # a tensor labelled 0 together with its conjugate in one network
     kets, klegs = [], []
     bonds = [gen.rand_index(rng, sym, max_charges=2, max_size=2) for _ in range(k - 1)]
     for t in range(k):
